@@ -57,10 +57,15 @@ def cases(draw, tier="quick"):
         segs = draw(st.lists(S.txt(SEG_ALPHA, min_size=1, max_size=4).map(lambda s: "d" + s if set(s) <= {"."} else s), min_size=1, max_size=4))
         ident = "/".join(segs)
         if d == ":" and draw(st.integers(0, 2)) == 0:
-            k = draw(st.integers(1, len(ident)))
+            k = draw(st.integers(0, len(ident)))  # also at position 0: the identifier may START with the delimiter
             ident = ident[:k] + ":" + ident[k:]
             if ident.endswith(":") and draw(st.booleans()):
                 ident += "z"
+            if draw(st.integers(0, 3)) == 0:  # a second delimiter somewhere else
+                j = draw(st.integers(0, len(ident)))
+                ident = ident[:j] + ":" + ident[j:]
+            if ident.endswith(":"):
+                ident += "z"  # keep the last segment non-empty
         reqs.append([p, ident])
     return {"spec": {"delimiter": d, "records": recs}, "requests": reqs}
 
